@@ -11,7 +11,9 @@ LEVEL = "exploration"
 RULE = (
     "exhaustive enumeration of a value alphabet: regular altitude grid 0..120 km, every double within +-K ulp of each "
     "of the 7 layer-boundary altitudes and boundary pressures, decade offsets around them, end points 0/120/+inf; "
-    "each point is pushed through both shipped copies in four call forms (float, 0-d, 1-d, 2-d). A case is "
+    "each point is pushed through both shipped copies in four call forms (float, 0-d, 1-d, 2-d); every ordered triple over one "
+    "value per layer is converted as ONE array object that is re-used (array left untouched, repeat call, lanes equal the "
+    "elements alone, column views, read-only input, valid call after refused calls). A case is "
     "non-trivial/distinct by (clause family, layer index of the point, side of the nearest boundary, call form)."
 )
 ASSUMPTIONS = [
